@@ -117,6 +117,10 @@ class Model {
   std::function<bool(int sender, const wire::Msg &m, int recipient /* -1 = bus */, int addressed, bool requested_reply)> can_send;
   std::function<bool(int sender /* -1 = bus */, const wire::Msg &m, int recipient, int addressed, bool requested_reply)> can_receive;
   std::function<bool(int c, const std::string &name)> can_own;
+  // white-box: is the recipient's outgoing queue in the bus over max_outgoing_bytes right now?  (unset: never)
+  std::function<bool(int recipient)> queue_full;
+  bool multi_txn = false;                // the event being modelled is carried out in several transactions (a disconnect)
+  std::map<int, int> emitted_in_event;   // recipient -> bus-originated messages already predicted in this multi-transaction event
 
   void connect(int c, unsigned uid, unsigned pid, const std::vector<unsigned> &gids, bool fdpass);
   // H2: the bus starts processing message m from connection c
@@ -148,7 +152,7 @@ class Model {
   void capture(int sender, const wire::Msg &m, int addressed, bool optional = false, bool floating = false);
   void capture_loose(const Exp &orig, int addressed, bool floating = false);
   void monitors_may_see_refusal(int sender, const wire::Msg &m);
-  bool bus_may_deliver(int recipient, const wire::Msg &m);   // receive policy of the recipient for a bus-originated message
+  int bus_may_deliver(int recipient, const wire::Msg &m);   // 0 no, 1 yes, 2 not determined (queue may have filled meanwhile)   // receive policy of the recipient for a bus-originated message
   void emit_from_bus(int recipient, Exp e, bool floating = false);
   void emit_broadcast_from_bus(const wire::Msg &sig);
   void route(int c, const wire::Msg &m, int addressed);
